@@ -78,7 +78,7 @@ class TermAnalysis:
                 f = t['f']
                 if f.get('trait') == 'read::reader::Reader' and f.get('name') == 'empty':
                     blocks.add(bi)
-                elif f.get('name') == 'empty' and all(self.is_emptier(x) for x in self.g.callee_targets(f)) and self.g.callee_targets(f):
+                elif self.g.callee_targets(f) and all(self.is_emptier(x) for x in self.g.callee_targets(f)):
                     blocks.add(bi)
             if blocks:
                 seen = fn.reachable_from(0, removed=blocks)
@@ -271,7 +271,7 @@ class TermAnalysis:
                                     facts.add(('td', x))
                     else:
                         tgts = g.callee_targets(f)
-                        if tgts and name == 'empty' and all(self.is_emptier(t) for t in tgts):
+                        if tgts and args and self._derives_from_self(fn, args[0]) and all(self.is_emptier(t) for t in tgts):
                             E = True
                         if tgts and x is not None:
                             if all(self.summ('tp', t) for t in tgts):
